@@ -572,6 +572,15 @@ pub mod wa {
         ent = abits(*e), dir = Some(*d), cols = [ColRef::R(x)],
         other = Some(&mut w.arch_p as &mut dyn ArchDyn));
 
+    site!(S8, WA, w,
+        params = [x: &OneOf<CompS, CompU>, d: &EntityDirectAny, e: &Entity<_>, h: &mut CompH],
+        ent = abits((*e).into_any()), dir = Some(*d), cols = [ColRef::R(x), ColRef::W(h)],
+        other = Some(&mut w.arch_v as &mut dyn ArchDyn));
+    site!(S9, WA, w,
+        params = [a: &mut CompA, e: &EntityAny],
+        ent = abits(*e), dir = None, cols = [ColRef::W(a)],
+        other = None);
+
     world_spec!(WA, "WA",
         archs = [(0, ArchP, arch_p), (1, ArchQ, arch_q), (2, ArchR, arch_r), (3, ArchT, arch_t), (4, ArchV, arch_v), (5, ArchX, arch_x)],
         sites = [
@@ -583,6 +592,8 @@ pub mod wa {
             (5, S5, SiteInfo { name: "S5 |&EntityAny, &mut CompH|", matches: &[2, 3], cols: &[&[2], &[1]], muts: &[true], has_dir: false, other: Some(5) }),
             (6, S6, SiteInfo { name: "S6 |&Entity<_>, &CompZ|", matches: &[3, 5], cols: &[&[3], &[0]], muts: &[false], has_dir: false, other: Some(4) }),
             (7, S7, SiteInfo { name: "S7 |&EntityAny, &EntityDirectAny, &OneOf<CompB, CompL>|", matches: &[1, 2, 3, 4], cols: &[&[1], &[0], &[2], &[0]], muts: &[false], has_dir: true, other: Some(0) }),
+            (8, S8, SiteInfo { name: "S8 |&OneOf<CompS, CompU>, &EntityDirectAny, &Entity<_>, &mut CompH|", matches: &[2, 3], cols: &[&[1, 2], &[4, 1]], muts: &[false, true], has_dir: true, other: Some(4) }),
+            (9, S9, SiteInfo { name: "S9 |&mut CompA, &EntityAny|", matches: &[0, 1, 3], cols: &[&[0], &[0], &[0]], muts: &[true], has_dir: false, other: None }),
         ],
         extra = {
             fn acc_double_use(&self, iter: bool, key: Option<Key>, k: &mut dyn FnMut()) -> Option<(usize, usize)> {
@@ -640,8 +651,9 @@ pub mod w16 {
 
     ecs_world! {
         ecs_name!(W16);
-        #[archetype_id(5)]
+        #[archetype_id(9)]
         ecs_archetype!(ArchWide, Kaa, Kab, Kac, Kad, Kae, Kaf, Kag, Kah, Kai, Kaj, Kak, Kal, Kam, Kan, Kao, Kap);
+        #[archetype_id(2)]
         ecs_archetype!(ArchOne, CompB);
     }
 
